@@ -291,8 +291,8 @@ func (m *mtr) forLoop(s *ast.ForStmt, restList []ast.Stmt, out vset, k func() st
 			dead = append(dead, v)
 		}
 	}
-	sort.Strings(state)
-	sort.Strings(dead)
+	m.sortDecl(state) // the loop state: where the variables are declared
+	m.sortDecl(dead)
 	for _, v := range state {
 		if _, ok := m.env[v]; !ok {
 			m.fail(s, "loop variable %s has no value at the loop entry", v)
@@ -318,7 +318,7 @@ func (m *mtr) forLoop(s *ast.ForStmt, restList []ast.Stmt, out vset, k func() st
 			}
 		}
 	}
-	sort.Strings(closure)
+	m.sortDecl(closure)
 	var params, cargs []string
 	for _, c := range closure {
 		params = append(params, fmt.Sprintf("(%s : %s)", cname(c), m.env[c].coq()))
@@ -534,7 +534,7 @@ func (p *pkg) psiFunction(key string, sec *psiSection, abstract map[string]*msig
 				m.ptrVar[id.Name] = true
 				m.ptrParam[id.Name] = true
 			}
-			t.env[id.Name] = typ
+			t.bind(id.Name, typ, id.Pos())
 			m.decl[id.Name] = typ
 			sig.params = append(sig.params, typ)
 			params = append(params, fmt.Sprintf("(%s : %s)", cname(id.Name), typ.coq()))
@@ -573,7 +573,7 @@ func (p *pkg) psiFunction(key string, sec *psiSection, abstract map[string]*msig
 			sig.res = append(sig.res, typ)
 			sig.resPtr = append(sig.resPtr, isPtr)
 			t.results = append(t.results, id.Name)
-			t.env[id.Name] = typ
+			t.bind(id.Name, typ, id.Pos())
 			m.decl[id.Name] = typ
 			m.ptrVar[id.Name] = isPtr
 			pre += "let " + cname(id.Name) + " := " + typ.zero() + " in\n  "
